@@ -84,7 +84,7 @@ def universe():
 
 def plan(tier, seed):
     if tier == 'quick':
-        return {'n': 60000, 'deadline': 45, 'floor': {'distinct_nontrivial': 5000, 'unifiable': 5000,
+        return {'n': 45000, 'deadline': 150, 'floor': {'distinct_nontrivial': 5000, 'unifiable': 5000,
                                                        'not_unifiable': 5000, 'online_yields_checked': 20000,
                                                        'with_prior_stack': 10000}}
     u = len(universe())
